@@ -4,7 +4,7 @@ Top-level clauses are taken from the statement of C09:
   "A cardinality is always either unset or a (min, max) pair of non-negative integers or None
    with min <= max and not both empty; any other assignment raises ValueError ..."
 """
-from pyvc.dsl import contract, spec, is_int, is_tuple, is_list
+from pyvc.dsl import contract, spec, is_int, is_tuple, is_list, is_ref
 
 
 @spec
@@ -52,7 +52,7 @@ def acceptable(v):
 
 
 contract('odml/util.py::format_cardinality',
-         requires='True',
+         requires='not is_ref(in_val)',
          ensures=['NF(result)'],
          raises={'ValueError': 'not acceptable(in_val)'},
          props=('C09',),
